@@ -76,6 +76,32 @@ type Big struct {
 
 type Float struct{ F float64 }
 
+// LazySlice is a []byte whose length is not yet decided (big.Int.Bytes() of a symbolic value).
+// It is forced – forking on the length – only when an instruction looks inside it, so values
+// that merely travel (log topics, return data nobody reads) cost no paths.
+type LazySlice struct {
+	thunk func() Slice
+	done  bool
+	val   Slice
+}
+
+func (l *LazySlice) get() Slice {
+	if !l.done {
+		l.val = l.thunk()
+		l.done = true
+		l.thunk = nil
+	}
+	return l.val
+}
+
+// force resolves a lazy slice; every other value passes through.
+func force(v Value) Value {
+	if l, ok := v.(*LazySlice); ok {
+		return l.get()
+	}
+	return v
+}
+
 // Opaque stands for values the engine does not model (init-time leftovers).
 type Opaque struct{ Tag string }
 
